@@ -339,15 +339,18 @@ func (l *commitLog) EarliestOffsetAfterTimestamp(timestamp int64) (int64, error)
 	}
 	// This indicates there are no entries in the segment whose timestamp
 	// is greater than or equal to the target timestamp. In this case, search
-	// the next segment if there is one. If there isn't, the timestamp is
-	// beyond the end of the log so return the next assignable offset.
-	if idx < len(l.segments)-1 {
+	// the next segment if there is one (the last segment included). If there
+	// isn't or it is empty, the timestamp is beyond the end of the log so
+	// return the next assignable offset.
+	if idx > 0 && idx < len(l.segments) {
 		seg = l.segments[idx]
 		entry, err := seg.findEntryByTimestamp(timestamp)
-		if err != nil {
+		if err == nil {
+			return entry.Offset, nil
+		}
+		if err != ErrEntryNotFound && err != io.EOF {
 			return 0, errors.Wrap(err, "failed to find log entry for timestamp")
 		}
-		return entry.Offset, nil
 	}
 	return l.segments[len(l.segments)-1].NextOffset(), nil
 }
